@@ -137,6 +137,14 @@ MissingCells(e) == CellsWith(e, {"T"}) \ DrawnCells(e)
 ExtraCells(e)   == DrawnCells(e) \ CellsWith(e, {"T", "EITHER"})
 EitherCells(e)  == CellsWith(e, {"EITHER"}) \ CellsWith(e, {"T"})
 
+(* ------------------------------ (2c) frame sequences ----------------------------- *)
+(* The video loop on ONE renderer: draw + render_static once, then rounds remove_dynamic; clear; draw with the window     *)
+(* <<b + i, e + i>>; render_dynamic (i = 0..k), finally a full render().  After EVERY round the obstacle shapes visible  *)
+(* on the axes are exactly what a single draw of that round's window shows - Verdict / CellsWith of that window, no     *)
+(* state of an earlier round: a shape of an earlier time step that the current window does not allow is a ghost.        *)
+FrameWindow(b, e, i) == <<b + i, e + i>>
+Ghosts(o, b, e)      == {t \in DrawnMay(o, b, e) : t \notin DrawnMay(o, b + 1, e + 1)}     \* must disappear in the next round
+
 (* ------------------------------ (2b) traffic lights ------------------------------ *)
 (* A light [cyc, off, active]: cycle of [d |-> duration, c |-> colour] elements (TrafficLight.tla, C17), time offset,  *)
 (* active = 0 for a light that is switched off.  What the light's own artist shows at the selected begin time step:  *)
